@@ -254,6 +254,10 @@ func zzRunTemplate(mode int) {
 	ti := zzChoice("prog", len(templates))
 	t := templates[ti]
 	a, b := zzFloat64("a"), zzFloat64("b")
+	zzRunSource(mode, t, a, b)
+}
+
+func zzRunSource(mode int, t zzTmpl, a, b float64) {
 	switch t.assume {
 	case "step":
 		zzAssume(a == 0 || a >= 1 || a <= -1)
@@ -357,4 +361,119 @@ func zzRunTemplate(mode int) {
 	}
 	zzReach("compared")
 	zzWitness("end")
+}
+
+// ---- generated programs over the compiler's supported subset ----
+//
+// Blocks of assignments to the global accumulator t, block-local declarations
+// (before and after nested blocks, read back later in the block), if / else,
+// while, the numeric and array range forms and break. Locals are not
+// observable on the VM, so every local flows into t; the evaluator is the
+// reference (all globals are compared by zzRunSource).
+
+type zzGSt struct {
+	kind string // acc decl use if ifelse while fornum forarr break
+	k    int
+	body []*zzGSt
+	els  []*zzGSt
+	cond string
+}
+
+func zzGGenBlock(depth, maxDepth int, lens []int, inLoop bool, ctr *int, locals []string) []*zzGSt {
+	n := 1 + zzChoice("glen", lens[depth])
+	var out []*zzGSt
+	for i := 0; i < n; i++ {
+		last := i == n-1
+		kinds := []string{"acc", "decl"}
+		if len(locals) > 0 {
+			kinds = append(kinds, "use")
+		}
+		if depth < maxDepth {
+			kinds = append(kinds, "if", "ifelse", "while", "fornum", "forarr")
+		}
+		if last && inLoop {
+			kinds = append(kinds, "break")
+		}
+		*ctr++
+		st := &zzGSt{kind: kinds[zzChoice("gstmt", len(kinds))], k: *ctr}
+		switch st.kind {
+		case "decl":
+			locals = append(locals, "v"+strconv.Itoa(st.k))
+		case "use":
+			st.cond = locals[zzChoice("glocal", len(locals))]
+		case "if", "ifelse":
+			st.cond = []string{"a < b", "t > 20", "a == a"}[zzChoice("gcond", 3)]
+			st.body = zzGGenBlock(depth+1, maxDepth, lens, inLoop, ctr, locals)
+			if st.kind == "ifelse" {
+				st.kind = "if"
+				st.els = zzGGenBlock(maxDepth, maxDepth, lens, inLoop, ctr, locals)
+			}
+		case "while", "fornum", "forarr":
+			st.body = zzGGenBlock(depth+1, maxDepth, lens, true, ctr, append(append([]string{}, locals...), "i"+strconv.Itoa(st.k)))
+		}
+		out = append(out, st)
+	}
+	return out
+}
+
+func zzGRender(sb *strings.Builder, sts []*zzGSt, ind int) {
+	pad := strings.Repeat("    ", ind)
+	for _, st := range sts {
+		k := strconv.Itoa(st.k)
+		switch st.kind {
+		case "acc":
+			sb.WriteString(pad + "t = t * 3 + " + k + "\n")
+		case "decl":
+			sb.WriteString(pad + "v" + k + " := a + t + " + k + "\n" + pad + "t = t + v" + k + "\n")
+		case "use":
+			sb.WriteString(pad + "t = t * 2 + " + st.cond + " * 5 - (" + st.cond + " + 1)\n")
+		case "break":
+			sb.WriteString(pad + "break\n")
+		case "if":
+			sb.WriteString(pad + "if " + st.cond + "\n")
+			zzGRender(sb, st.body, ind+1)
+			if st.els != nil {
+				sb.WriteString(pad + "else\n")
+				zzGRender(sb, st.els, ind+1)
+			}
+			sb.WriteString(pad + "end\n")
+		case "while":
+			sb.WriteString(pad + "i" + k + " := 0\n" + pad + "while i" + k + " < 2\n" + pad + "    i" + k + " = i" + k + " + 1\n")
+			zzGRender(sb, st.body, ind+1)
+			sb.WriteString(pad + "end\n")
+		case "fornum":
+			sb.WriteString(pad + "for i" + k + " := range 2\n" + pad + "    t = t + i" + k + "\n")
+			zzGRender(sb, st.body, ind+1)
+			sb.WriteString(pad + "end\n")
+		case "forarr":
+			sb.WriteString(pad + "for i" + k + " := range [b 7]\n" + pad + "    t = t + i" + k + "\n")
+			zzGRender(sb, st.body, ind+1)
+			sb.WriteString(pad + "end\n")
+		}
+	}
+}
+
+func zzGenSource() string {
+	D := zzParam("GD", 2)
+	lens := []int{zzParam("GL0", 2), zzParam("GL1", 2), zzParam("GL2", 1), 1}
+	ctr := 0
+	// the whole program sits in one block so that its declarations are locals
+	body := zzGGenBlock(1, D, lens, false, &ctr, nil)
+	var sb strings.Builder
+	sb.WriteString("t := 0\nif a == a\n")
+	zzGRender(&sb, body, 1)
+	sb.WriteString("end\n")
+	return sb.String()
+}
+
+// ZZC16Gen / ZZC17Gen: the differential check and the well-formedness
+// verifier on every generated program.
+func ZZC16Gen() {
+	a, b := zzFloat64("a"), zzFloat64("b")
+	zzRunSource(16, zzTmpl{name: "generated", src: zzGenSource()}, a, b)
+}
+
+func ZZC17Gen() {
+	a, b := zzFloat64("a"), zzFloat64("b")
+	zzRunSource(17, zzTmpl{name: "generated", src: zzGenSource()}, a, b)
 }
